@@ -107,7 +107,7 @@ def sTop : Str := [116, 111, 112]
 def sSub : Str := [115, 117, 98]
 def pnBlob (n : Nat) : BlobMeta := ⟨mkRef n, sPermanode, 100⟩
 def noFlat : Flat := ⟨false, [], false, [], none⟩
-def noP : PFlat := ⟨[], false, none, false, [], none, none, none, none⟩
+def noP : PFlat := ⟨0, [], false, none, false, [], none, none, none, none⟩
 def noF : FFlat := ⟨none, none, none, none, none, []⟩
 def noD : DFlat := ⟨none, [], none⟩
 def strEq (s : Str) : StrC := ⟨false, s, [], [], [], none, false⟩
@@ -120,8 +120,8 @@ def logicalC (op : Op) (a b : Cons) : Cons := .mk op a b noFlat .nil .nil .nil
 /-- p1 has the members p2 and p3; p2 has the tags y, z; p3 has the tag x -/
 def wMembers : World :=
   { blobs := [pnBlob 1, pnBlob 2, pnBlob 3],
-    claims := [⟨mkRef 1, .add, sCamliMember, mkRef 2, 10⟩, ⟨mkRef 1, .add, sCamliMember, mkRef 3, 11⟩,
-               ⟨mkRef 2, .add, sTag, [121], 12⟩, ⟨mkRef 2, .add, sTag, [122], 13⟩, ⟨mkRef 3, .add, sTag, sX, 14⟩],
+    claims := [⟨mkRef 1, .add, sCamliMember, mkRef 2, 10, false⟩, ⟨mkRef 1, .add, sCamliMember, mkRef 3, 11, false⟩,
+               ⟨mkRef 2, .add, sTag, [121], 12, false⟩, ⟨mkRef 2, .add, sTag, [122], 13, false⟩, ⟨mkRef 3, .add, sTag, sX, 14, false⟩],
     deleted := [], ctime := [], files := [], dirs := [] }
 
 /-- `{permanode: {attr: camliMember, valueInSet: {permanode: {attr: tag, value: x}}}}` -/
@@ -135,7 +135,7 @@ def cMemberIsPermanode : Cons :=
 /-- p1 has a member that is no blob of the world; p2 has the member p1 -/
 def wDangling : World :=
   { blobs := [pnBlob 1, pnBlob 2],
-    claims := [⟨mkRef 1, .add, sCamliMember, mkRef 9, 10⟩, ⟨mkRef 2, .add, sCamliMember, mkRef 1, 11⟩],
+    claims := [⟨mkRef 1, .add, sCamliMember, mkRef 9, 10, false⟩, ⟨mkRef 2, .add, sCamliMember, mkRef 1, 11, false⟩],
     deleted := [], ctime := [], files := [], dirs := [] }
 
 /-- `{permanode: {relation: {relation: child, any: {camliType: permanode}}}}` -/
@@ -159,14 +159,14 @@ def cATxtBelow : Cons := .mk .none .nil .nil noFlat .nil .nil (.mk noD .nil (fil
 /-- p1 has a claim; p2 has no claim at all; p3 has a claim and is deleted -/
 def wDeleted : World :=
   { blobs := [pnBlob 1, pnBlob 2, pnBlob 3],
-    claims := [⟨mkRef 1, .add, sTag, sX, 10⟩, ⟨mkRef 3, .add, sTag, sX, 11⟩, ⟨mkRef 3, .delete, [], [], 12⟩],
+    claims := [⟨mkRef 1, .add, sTag, sX, 10, false⟩, ⟨mkRef 3, .add, sTag, sX, 11, false⟩, ⟨mkRef 3, .delete, [], [], 12, false⟩],
     deleted := [mkRef 3], ctime := [], files := [], dirs := [] }
 
 /-- p1 has tag x and no node type; p2 has node type tb; p3 had node type ta and now has tb -/
 def wTypes : World :=
   { blobs := [pnBlob 1, pnBlob 2, pnBlob 3],
-    claims := [⟨mkRef 1, .add, sTag, sX, 10⟩, ⟨mkRef 2, .set, sCamliNodeType, sTb, 11⟩,
-               ⟨mkRef 3, .set, sCamliNodeType, sTa, 12⟩, ⟨mkRef 3, .set, sCamliNodeType, sTb, 13⟩],
+    claims := [⟨mkRef 1, .add, sTag, sX, 10, false⟩, ⟨mkRef 2, .set, sCamliNodeType, sTb, 11, false⟩,
+               ⟨mkRef 3, .set, sCamliNodeType, sTa, 12, false⟩, ⟨mkRef 3, .set, sCamliNodeType, sTb, 13, false⟩],
     deleted := [], ctime := [], files := [], dirs := [] }
 
 /-- `and(camliType=permanode, or(tag=x, camliNodeType=tb))` -/
